@@ -23,7 +23,7 @@ RULE = (
 ASSUMPTIONS = ["names are unique within one scope (a duplicate makes 'the node at that path' ill-defined)",
                "function bodies hold no named definitions, so an argument path is unambiguous"]
 CORE_ALLOWED = ()
-FRONTIER_KNOBS = ("def_target", "kwarg_target", "const_collision")
+FRONTIER_KNOBS = ("def_target", "const_collision")
 FLOORS = {"resolves": 0.3, "missing": 0.1, "def_before": 0.15, "arg_target": 0.1}
 
 
@@ -76,7 +76,7 @@ def _case(draw, knob):
     locs = progs.model_locations(tree)
     if not locs:
         return {"module": m, "loc": ["zzz"]}
-    excluded = ("def", "kwarg")
+    excluded = ("def",)
     if knob is None or knob == "const_collision":
         if draw(st.integers(0, 3)) == 0:
             how = draw(st.sampled_from(("wrong_tail", "wrong_parent", "bare_inner")))
